@@ -260,7 +260,11 @@ def run(R):
     # encoder validation (every run)
     for nb in (1, 2, 4):
         for o in ORDERS:
-            ev_ = validate_encoder(R, nb, o)
+            try:
+                ev_ = validate_encoder(R, nb, o)
+            except Exception as e:  # noqa: BLE001 - e.g. the kernel's result is not determined by its inputs
+                R.inconclusive_(f"encoder validation of the {nb}-bit {o} kernels could not be completed: {type(e).__name__}: {e}")
+                ev_ = dict(kernel=f"{nb}bit-{o}", unpack_256_bytes=False, pack_256_bytes=False)
             R.encoder_validation.append(ev_)
             if ev_["unpack_256_bytes"] and ev_["pack_256_bytes"]:
                 R.validated(2)
